@@ -153,16 +153,55 @@ inductive Resolvable (reg : Registry) : Mod → List Stmt → Stmt → Prop
       Resolvable reg m (td :: sc) tt →
       (∀ ut ∈ t.all "type", Resolvable reg root (t :: scope) ut) → Resolvable reg root scope t
 
+/-- One statement of a derivation chain. -/
+inductive Link where
+  /-- a `type` statement, with the module it stands in and its enclosing statements -/
+  | ty (root : Mod) (scope : List Stmt) (t : Stmt)
+  /-- the `typedef` statement it names -/
+  | td (d : Stmt)
+  deriving Repr, Inhabited
+
 /-- `DerivesFrom reg root scope t kind chain`: the derivation chain of `t`: the statements from `t`
 outward to the type statement naming the built-in `kind`, nearest first (a `type` statement, the
 `typedef` it names, that typedef's `type` statement, …). -/
-inductive DerivesFrom (reg : Registry) : Mod → List Stmt → Stmt → String → List Stmt → Prop
+inductive DerivesFrom (reg : Registry) : Mod → List Stmt → Stmt → String → List Link → Prop
   | builtin {root : Mod} {scope : List Stmt} {t : Stmt} :
-      builtinNames.contains t.arg = true → DerivesFrom reg root scope t t.arg [t]
+      builtinNames.contains t.arg = true → DerivesFrom reg root scope t t.arg [.ty root scope t]
   | derived {root : Mod} {scope : List Stmt} {t : Stmt} (m : Mod) (td : Stmt) (sc : List Stmt) (tt : Stmt)
-      (kind : String) (chain : List Stmt) :
+      (kind : String) (chain : List Link) :
       Binds reg root scope t.arg m td sc → td.one? "type" = some tt →
-      DerivesFrom reg m (td :: sc) tt kind chain → DerivesFrom reg root scope t kind (t :: td :: chain)
+      DerivesFrom reg m (td :: sc) tt kind chain →
+      DerivesFrom reg root scope t kind (.ty root scope t :: .td td :: chain)
+
+/-! ### Nearest definition wins, patterns accumulate — over a chain of statements -/
+
+/-- Units: those of the nearest typedef that states them. -/
+def chainUnits (chain : List Link) : Option String :=
+  chain.findSome? fun | .td d => d.argOf? "units" | .ty _ _ _ => none
+
+/-- Default: that of the nearest typedef that states one. -/
+def chainDefault (chain : List Link) : Option String :=
+  chain.findSome? fun | .td d => d.argOf? "default" | .ty _ _ _ => none
+
+/-- Path: that of the nearest type statement that states one. -/
+def chainPath (chain : List Link) : Option String :=
+  chain.findSome? fun | .ty _ _ t => t.argOf? "path" | .td _ => none
+
+/-- The fraction-digits statement of the nearest type statement that has one. -/
+def chainFractionDigits (chain : List Link) : Option Stmt :=
+  chain.findSome? fun | .ty _ _ t => t.one? "fraction-digits" | .td _ => none
+
+/-- The enum statements of the nearest type statement that lists any. -/
+def chainEnums (chain : List Link) : Option (List Stmt) :=
+  chain.findSome? fun | .ty _ _ t => (if (t.all "enum").isEmpty then none else some (t.all "enum")) | .td _ => none
+
+/-- The bit statements of the nearest type statement that lists any. -/
+def chainBits (chain : List Link) : Option (List Stmt) :=
+  chain.findSome? fun | .ty _ _ t => (if (t.all "bit").isEmpty then none else some (t.all "bit")) | .td _ => none
+
+/-- All patterns of the chain. -/
+def chainPatterns (chain : List Link) : List String :=
+  chain.flatMap fun | .ty _ _ t => (t.all "pattern").map Stmt.arg | .td _ => []
 
 /-! ## Inheritance -/
 
